@@ -49,6 +49,9 @@ def run(ck):
             cl = next((a for a in H.ancestors(pr, r) if a.get('k') == 'Closure'), None)
             ad = H.parents(pr).get(id(cl)) if cl is not None else None
             ok = ad is not None and ad.get('k') == 'MCall' and ad.get('m') == 'filter_map' and list(H.value_exprs(cl['body']))[0] is r
+            if not ok and cl is None:
+                lf = H.absorbing_child_loop(pr, r)
+                ok = lf is not None and lf['conditional']
             ck.ob('R20.1', 'child-failure-absorbed|%d' % (i + 1), ok, L.loc(r),
                   'recursion is the value of a filter_map closure: a failed child is simply absent' if ok else
                   'the result of the recursive call can propagate to the parent (`?`/collect::<Option<_>>): one bad child removes its parent')
